@@ -12,7 +12,8 @@ const CAPS: &[usize] = &[1, 2, 3, 5, 7, 16, 64, 511, 1000, 4095, 4096, 8191, 655
 
 fn benign_rule(rng: &mut Rng, pred: &Prediction) -> Rule {
     let any_input = || -> String { "*".into() };
-    match rng.below(10) {
+    match rng.below(11) {
+        10 => Rule::new("tty", *rng.pick(&["@1", "@2", "@1"]), 0, 1),
         9 => {
             // the size the file claims to have is not the size it has (special files report 0;
             // a file may grow between stat and read): the reader must read to end of file
